@@ -49,9 +49,15 @@ def run(ctx):
     u = spec("exp(w - max(w))", w=w)
     wantv = spec("var(u) / (N * mean(u)**2)", u=u, N=N)
     got = T.strip_raise(ret)
-    leaves = [l for l in T.phi_leaves(got) if l != T.atom("nan")]
-    ctx.decide(leaves == [wantv], "C08.var", m.ident, loc_of(m), "variance == var(u)/(N mean(u)^2), u = exp(w - max w)",
-               f"variance returns {T.show(got)[:300]}")
+    # the value on the non-degenerate path (mean(u) > 0; u contains exp(0) = 1 so this is every finite population)
+    import ast as _ast
+    from ..evalr import compare as _cmp
+    mu, zero = spec("mean(u)", u=u), T.const(0)
+    nd = got
+    for op, pol in ((_ast.NotEq(), True), (_ast.Eq(), False), (_ast.Gt(), True), (_ast.LtE(), False)):
+        nd = T.select(nd, _cmp(op, mu, zero), pol)
+    ctx.decide(nd == wantv, "C08.var", m.ident, loc_of(m), "variance == var(u)/(N mean(u)^2), u = exp(w - max w), whenever mean(u) > 0",
+               f"on a non-degenerate population (mean(u) > 0) variance returns {T.show(nd)[:300]}")
     ctx.count("functions_folded", 2)
 
     smc = repo.cls(SMC)
@@ -185,6 +191,7 @@ _B = "src/aspire/samplers/smc/base.py"
 _S = "src/aspire/samples.py"
 MUTANTS = [
     M("ratio drops -log N", _S, "log_w = self.unnormalized_log_weights(beta)\n        return logsumexp(log_w) - math.log(len(self.x))", "log_w = self.unnormalized_log_weights(beta)\n        return logsumexp(log_w)", "C08.ratio"),
+    M("variance reported as nan unless degenerate", _S, "if mean_w != 0 else self.xp.nan", "if mean_w == 0 else self.xp.nan", "C08.var"),
     M("variance not divided by N", _S, "var_w / (len(self) * (mean_w**2))", "var_w / (mean_w**2)", "C08.var"),
     M("variance of unshifted weights", _S, "u = self.xp.exp(log_w - m)", "u = self.xp.exp(log_w)", "C08.var"),
     M("ratio after resampling", _B, "log_evidence_ratio = samples.log_evidence_ratio(beta)\n                log_evidence_ratio_var = samples.log_evidence_ratio_variance(\n                    beta\n                )",
